@@ -109,7 +109,8 @@ class Ident(Part):
     floors = {"attrs": 0.3, "xml": 0.2, "html": 0.2}
 
     def strategy(self, tier):
-        return markup.documents(max_depth=3 if tier == "quick" else 4)
+        return markup.documents(max_depth=3 if tier == "quick" else 4,
+                                soup=True)
 
     def source(self, case):
         return markup.serialize(case["nodes"])
